@@ -550,6 +550,8 @@ class Ctx:
         self.sqrt_memo = {}
         self.exp_memo = {}
         self.solver = z3.Solver()
+        self.timeout_ms = timeout_ms
+        self.blind_atoms = []
         self.solver.set("timeout", timeout_ms)
         self.level = 0
         self.log = []
@@ -762,6 +764,8 @@ class Ctx:
             self.known[key] = (kn & signs) if val else (kn - signs)
             if e.forked:
                 self.path_forked = True
+                if e.constraint is None:
+                    self.blind_atoms.append((key, signs if val else (_ALL - signs)))
                 self._fork_outcome(1 if val else 0)
             return val
         if self.max_degree is not None and p.degree() > self.max_degree:
@@ -774,6 +778,7 @@ class Ctx:
             self.log.append(_Entry("dec", (key, signs), True, forked=True, tried=False, level=self.level, constraint=None))
             self.pos += 1
             self.known[key] = kn & signs
+            self.blind_atoms.append((key, signs))
             self._fork_outcome(1)
             return True
         atom = self._atom(key, signs)
@@ -994,6 +999,22 @@ class Ctx:
         self.notes[key] = self.notes.get(key, 0) + n
 
     def current_values(self):
+        if self.blind_atoms:
+            # decisions taken without the solver (nonlinear): try to get a model that also satisfies them, so that a
+            # counterexample found on this path can reproduce; fall back to a model of the linear part
+            self.solver.push()
+            try:
+                for key, signs in self.blind_atoms:
+                    self.solver.add(self._atom(key, signs))
+                self.solver.set("timeout", 15000)
+                r = self.solver.check()
+                if str(r) == "sat":
+                    vals = self._model_values(self.solver.model())
+                    return {self.names[i]: v for i, v in vals.items()}
+            finally:
+                self.solver.pop()
+                self.solver.set("timeout", self.timeout_ms)
+                self.model = None
         if self.model is None:
             if self._check() != "sat":
                 raise _Abort()
@@ -1046,6 +1067,7 @@ class Ctx:
         self.known = {}
         self.path_choices = []
         self.path_forked = False
+        self.blind_atoms = []
         self.fork_outcomes = []
         self.varcount = 0
         self.tokens = []
@@ -1219,9 +1241,16 @@ class ConcreteCtx:
             raise _Abort()
 
     def decide(self, p, op):
-        c = p.constval()
+        if not p.t:
+            return 0 in _OPS[op]
         if not p.is_const():
-            raise HarnessError("symbolic value in concrete replay")
+            # only exact algebraic elements (square roots) can be left: polynomial identities have already cancelled,
+            # orderings are decided numerically
+            v = self._approx(Q(p))
+            scale = sum(abs(float(c)) for c in p.t.values()) or 1.0
+            sgn = 0 if abs(v) <= 1e-11 * scale else (1 if v > 0 else -1)
+            return sgn in _OPS[op]
+        c = p.constval()
         return ((c > 0) - (c < 0)) in _OPS[op]
 
     def choice(self, n, label=""):
@@ -1251,11 +1280,47 @@ class ConcreteCtx:
         if self.mode == "float":
             return math.sqrt(q)
         q = _num(q)
-        c = q.const()
-        r = Fraction(math.isqrt(c.numerator), math.isqrt(c.denominator))
-        if r * r == c:
-            return qconst(r)
-        return qconst(Fraction(math.sqrt(c)))
+        if not q.is_const():
+            # radicand contains an earlier irrational: stay exact with a nested algebraic element
+            key = (tuple(sorted(q.n.t.items())), tuple(sorted(q.d.t.items())))
+            approx = self._approx(q)
+        else:
+            c = q.const()
+            if c < 0:
+                raise ValueError("sqrt of negative")
+            r = Fraction(math.isqrt(c.numerator), math.isqrt(c.denominator))
+            if r * r == c:
+                return qconst(r)
+            key = c
+            approx = float(c)
+        memo = self.__dict__.setdefault("_sqrt_memo", {})
+        if key in memo:
+            return memo[key]
+        # an exact algebraic element y with y^2 -> radicand (rewrite rule), plus its numerical value for orderings
+        i = len(self.names)
+        self.names.append(f"sqrt#{i}")
+        if q.d.t != ONE.t and not q.d.is_const():
+            y = self.sqrt(Q(q.n * q.d)) / Q(q.d)
+            memo[key] = y
+            return y
+        self.rules[i] = q.n.scale(1 / q.d.constval())
+        self.__dict__.setdefault("_approx_vals", {})[i] = math.sqrt(max(approx, 0.0))
+        y = Q(Poly.var(i))
+        memo[key] = y
+        return y
+
+    def _approx(self, q):
+        vals = self.__dict__.get("_approx_vals", {})
+
+        def ev(p):
+            tot = 0.0
+            for m, c in p.t.items():
+                term = float(c)
+                for v, e in m:
+                    term *= vals[v] ** e
+                tot += term
+            return tot
+        return ev(q.n) / ev(q.d)
 
     def exp(self, q):
         self.exp_args = getattr(self, "exp_args", {})
